@@ -99,6 +99,9 @@ pub struct NetScenario {
     /// have not run yet when the stop comes
     #[serde(default)]
     pub yields_before_stop: u8,
+    /// the `Listener` value has been run once before (started and stopped while idle) when the scenario begins
+    #[serde(default)]
+    pub relisten: bool,
     pub cap_ns: u64,
 }
 
@@ -364,7 +367,14 @@ async fn run_net_async(sc: &NetScenario) -> NetOutcome {
             listener = listener.with_auth_cookie_expiry(e);
         }
         let stop2 = stop.clone();
+        let relisten = sc.relisten;
         tokio::task::spawn_local(async move {
+            if relisten {
+                // an earlier, idle run of the same listener value: started and stopped at once
+                let pre = CancellationToken::new();
+                pre.cancel();
+                let _ = listener.listen(addr, pre).await;
+            }
             let r = listener.listen(addr, stop2).await;
             let s = match r {
                 Ok(()) => "Ok".to_string(),
